@@ -4,6 +4,7 @@ Cases are generated as abstract models (a class table with an inheritance graph,
 of named objects, a builtins dictionary, references with a target class) and rendered to a textX
 grammar + model text for the implementation and to Coq terms for Model/Plain.v."""
 import json
+import os
 from vt import core
 from vt.main import decide
 from translate import plain_tr
@@ -340,28 +341,16 @@ def finish_case(g, tree, builtins, stream):
             "tree": tree, "builtins": builtins, "text": text, "refs": refs, "stream": stream}
 
 
-# ------------------------------------------------------------------ corpus (hand-written abstract cases)
+# ------------------------------------------------------------------ corpus (corpus/C07/*.json, run first)
 def corpus_cases():
-    """regression cases: the recursion witness of the fixed defect and the documented examples"""
+    """regression cases kept as abstract cases (grammar description, tree, builtins): the recursion witness of
+    the fixed defect and the documented situations; rendered exactly like generated cases"""
+    d = os.path.join(core.VERIF, "corpus", "C07")
     out = []
-    base = {"commons": ["K0", "K1"], "extra": [], "abstracts": ["A0"], "fqn": False, "item_alts": ["K0", "K1"],
-            "item_paren": False, "abs_alts": {"A0": [("plain", "K0"), ("paren", "A0")]},
-            "shape": {"K0": {"ref": None, "refs": None, "sub": False, "kids": False},
-                      "K1": {"ref": "A0", "refs": "A0", "sub": False, "kids": True}},
-            "uses": "Item", "root_named": False, "odd_kids": False}
-
-    def n(cls, name, ref=None, refs=(), kids=()):
-        return {"cls": cls, "name": name, "ref": ref, "refs": list(refs), "sub": None, "kids": list(kids), "paren": False}
-    # 1. witness of the fixed defect: target A0: K0 | '(' A0 ')', an object of the unrelated class K1 carries the name
-    out.append(finish_case(base, {"cls": "Model", "name": None, "items": [n("K1", "y"), n("K1", "r", ref="y")], "uses": []}, None, "corpus"))
-    # 2. same name in a related and an unrelated class: unique by type
-    out.append(finish_case(base, {"cls": "Model", "name": None, "items": [n("K0", "y"), n("K1", "y", ref="y")], "uses": ["y"]}, None, "corpus"))
-    # 3. builtins fallback with a conforming and a non-conforming entry
-    bl = [{"key": "lib", "kind": "same", "cls": "K0", "text": "k0 lib"}, {"key": "x", "kind": "same", "cls": "K1", "text": "k1 lib"}]
-    out.append(finish_case(base, {"cls": "Model", "name": None, "items": [n("K1", "r", ref="lib", refs=["lib", "lib"])], "uses": []}, bl, "corpus"))
-    out.append(finish_case(base, {"cls": "Model", "name": None, "items": [n("K1", "r", refs=["lib", "x"])], "uses": []}, bl, "corpus"))
-    # 4. two objects of conforming classes with the same name, one nested
-    out.append(finish_case(base, {"cls": "Model", "name": None, "items": [n("K0", "d"), n("K1", "r", ref="d", kids=[n("K0", "d")])], "uses": []}, None, "corpus"))
+    for f in sorted(os.listdir(d)) if os.path.isdir(d) else []:
+        if f.endswith(".json"):
+            c = json.load(open(os.path.join(d, f)))
+            out.append(finish_case(c["g"], c["tree"], c["builtins"], "corpus"))
     return out
 
 
@@ -428,17 +417,39 @@ def harness_problem(case, o):
     glue (grammar compilation, parsing), reported as a disagreement, never silently ignored"""
     if "harness" in o:
         return o["harness"]
-    for n, kind, inh in case["table"]:
+    for n, kind, inh in case.get("intended_table", case["table"]):
         if n == "OBJECT":
             continue
         got = o["classes"].get(n)
-        if got is None or got["type"] != kind or got["inh"] != inh:
+        if got is None or got["type"] != kind or not _subsequence(got["inh"], inh):
             return "class %s: metamodel has %r, generator intended %r" % (n, got, (kind, inh))
     def strip(t):
         return [t[0], t[1][:1] if t[1][0] == "other" else t[1], [strip(k) for k in t[2]]]
     if "tree" in o and strip(o["tree"]) != tree_of_case(case):
         return "parsed containment tree differs from the generated one"
     return None
+
+
+def _subsequence(xs, ys):
+    it = iter(ys)
+    return all(x in it for x in xs)
+
+
+def adopt_metamodel_table(case, o):
+    """The class table handed to the model and to the oracle is the one the metamodel really has (observed through
+    _tx_type / _tx_inh_by).  It must have the generator's rule kinds and its inheritance lists must be the generator's,
+    possibly with entries missing: the grammar compiler fills _tx_inh_by at the moment a rule first becomes abstract,
+    so an edge to a rule whose kind is still undetermined in that pass (mutually recursive abstract rules) is dropped.
+    That is the compiler's business (not C07's anchor); conformance is judged against the table that exists.
+    Returns True when entries were dropped."""
+    if "harness" in o or harness_problem(case, o):
+        return False
+    actual = [(n, k, inh if n == "OBJECT" else list(o["classes"][n]["inh"])) for n, k, inh in case["table"]]
+    if [list(x) for x in actual] == [list(x) for x in case["table"]]:
+        return False
+    case["intended_table"] = case["table"]
+    case["table"] = actual
+    return True
 
 
 def oracle(case, o):
@@ -482,7 +493,7 @@ def nontrivial(case):
 
 
 def public(case):
-    return {k: case[k] for k in ("grammar", "text", "builtins", "refs", "table", "stream", "class_names", "tree", "g")}
+    return {k: case[k] for k in ("grammar", "text", "builtins", "refs", "table", "stream", "class_names", "tree", "g", "intended_table") if k in case}
 
 
 def enumerated_cases():
@@ -531,6 +542,9 @@ def run_cases(chk, cases, tag, failures, disagreements):
     for ch, o in zip(chunks, outs):
         for c, x in zip(ch, o):
             res[id(c)] = x
+    for c in cases:
+        if adopt_metamodel_table(c, res[id(c)]):
+            chk.stat("inheritance edge dropped by the grammar compiler (table taken from the metamodel)")
     vals, errs = core.coq_eval(tag, IMPORTS, [coq_case(c) for c in cases])
     if errs:
         disagreements.append({"case": "coq evaluation", "model": errs[:2]})
